@@ -256,6 +256,7 @@ func specLkAfter(kind, lk int) int {
 //@   at call update#2: after ghost $lost = ite(result, $lost+wide(old(state).extra())+wide(n)-wide(state.extra()), $lost)
 //@   at call update#3: after ghost $lost = ite(result, $lost+wide(old(state).extra())+wide(n)-wide(state.extra()), $lost)
 //@   at call update#4: after ghost $lost = ite(result, $lost+wide(old(state).extra())+wide(n)-wide(state.extra()), $lost)
+//@   at call update#5: after ghost $lost = ite(result, $lost+wide(old(state).extra())+wide(n)-wide(state.extra()), $lost)
 //@   modifies c.ptr, $ledger, $lost, $rd, $lk
 
 //@ contract (*Counter).releaseReader
@@ -293,3 +294,81 @@ func specLkAfter(kind, lk int) int {
 //@   ensures $rd == 0 && $lk == 0
 //@   loop 1: invariant $ledger == old($ledger) && $lost == old($lost) && $rd == 0 && $lk == 0
 //@   modifies c.ptr, $ledger, $lost, $rd, $lk
+
+// ---------------------------------------------------------------------------
+// C05 / C06 / C10: access to the mapped bytes.
+//
+// Scoping precondition used throughout: the mapped file (or the byte string
+// given to Parse) is smaller than 4 GiB. Offsets in the format are 32 bits wide;
+// for larger inputs the uint32 arithmetic in entryAt/writeEntryAt wraps (for a
+// record ending exactly at or beyond 2^32 the slice expression in entryAt panics).
+//
+// $private: the bytes behind m.mapping.Data belong to this call alone (Parse
+// works on a copy). When it is false every atomic access is preceded by an
+// arbitrary change of the bytes by other processes.
+
+//@ ghost private bool
+
+//@ contract (*mappedFile).load32
+//@   requires m.mapping != nil
+//@   ensures int64(off) >= int64(len(m.mapping.Data)) ==> result == 0
+//@   ensures int64(off)+4 <= int64(len(m.mapping.Data)) ==> result == le32(m.mapping.Data, off)
+//@   ensures $private ==> unchanged(m.mapping.Data)
+//@   modifies elems(m.mapping.Data)
+
+//@ contract (*mappedFile).cas32
+//@   requires m.mapping != nil
+//@   requires int64(off) < int64(len(m.mapping.Data))
+//@   modifies elems(m.mapping.Data)
+
+// entryAt reads a record; the postcondition is the documented record layout:
+// value at off, name length (low 24 bits) at off+8, next at off+12, name at off+16.
+//@ contract (*mappedFile).entryAt
+//@   requires m.mapping != nil
+//@   requires len(m.mapping.Data) < 1<<32
+//@   ensures ok ==> off >= m.hdrLen+hashOff && int64(off)+16+int64(len(name)) <= int64(len(m.mapping.Data))
+//@   ensures ok ==> 1 <= len(name) && len(name) <= 0xffffff
+//@   ensures ok ==> issub(name, m.mapping.Data, int(off)+16, int(off)+16+len(name))
+//@   ensures ok && $private ==> uint32(len(name)) == le32(m.mapping.Data, int(off)+8)&0xffffff
+//@   ensures ok ==> next == le32(m.mapping.Data, int(off)+12)
+//@   ensures ok ==> v != nil
+//@   ensures !ok ==> v == nil && next == 0 && len(name) == 0
+//@   ensures $private ==> unchanged(m.mapping.Data)
+//@   modifies elems(m.mapping.Data)
+
+// writeEntryAt writes name length (tagged 0xff) and name; the value cell is not written.
+//@ contract (*mappedFile).writeEntryAt
+//@   requires m.mapping != nil
+//@   requires len(m.mapping.Data) < 1<<32
+//@   requires len(name) <= maxNameLen
+//@   ensures ok <==> off >= m.hdrLen+hashOff && int64(off)+16+int64(len(name)) <= int64(len(m.mapping.Data))
+//@   ensures ok ==> next != nil && v != nil
+//@   ensures ok && $private ==> le32(m.mapping.Data, int(off)+8) == uint32(len(name))|0xff000000
+//@   ensures ok && $private ==> bytes(m.mapping.Data, int(off)+16, len(name)) == name
+//@   ensures ok && $private ==> le64(m.mapping.Data, int(off)) == old(le64(m.mapping.Data, int(off)))
+//@   ensures !ok ==> next == nil && v == nil && unchanged(m.mapping.Data)
+//@   modifies elems(m.mapping.Data)
+
+// lookup walks one bucket chain. (No ranking function exists for the walk: see KNOWN_FINDINGS.)
+//@ contract (*mappedFile).lookup
+//@   requires m.mapping != nil
+//@   requires len(m.mapping.Data) < 1<<32
+//@   ensures ok ==> headOff == m.hdrLen+hashOff+specHash(name)*4
+//@   ensures !ok ==> v == nil
+//@   ensures $private ==> unchanged(m.mapping.Data)
+//@   loop 1: invariant headOff == m.hdrLen+hashOff+specHash(name)*4 && m.mapping != nil
+//@   loop 1: invariant $private ==> unchanged(m.mapping.Data)
+//@   modifies elems(m.mapping.Data)
+
+// mappedHeader: fixed prefix, 4-aligned length word holding the header length
+// (a multiple of 32), then the metadata, zero padded.
+//@ contract mappedHeader
+//@   ensures len(meta) > maxMetaLen ==> result1 != nil && len(result0) == 0
+//@   ensures len(meta) <= maxMetaLen ==> result1 == nil
+//@   ensures len(meta) <= maxMetaLen ==> len(result0) == (28+4+len(meta)+31)/32*32
+//@   ensures len(meta) <= maxMetaLen ==> le32(result0, 28) == uint32(len(result0))
+//@   ensures len(meta) <= maxMetaLen ==> bytes(result0, 0, 28) == hdrPrefix
+//@   ensures len(meta) <= maxMetaLen ==> bytes(result0, 32, len(meta)) == meta
+//@   ensures len(meta) <= maxMetaLen ==> forall k int :: 32+len(meta) <= k && k < len(result0) ==> result0[k] == 0
+//@   ensures len(meta) <= maxMetaLen ==> 32 <= len(result0) && len(result0) <= 544 && len(result0)%32 == 0
+//@   modifies nothing
